@@ -241,7 +241,7 @@ def rect_case(rnd, idx):
     return d
 
 
-def file_case(rnd, idx, gi, variant):
+def file_case(rnd, idx, gi, variant, refine_big=True):
     d = {'kind': 'file', 'idx': idx, 'file': 'g%d.dat' % gi, 'atmos_type': None, 'block_order': None, 'angle': None,
          'surface_mode': 'default', 'rotate': None, 'translate': None, 'tilt': None, 'atmos_volume': None,
          'atmos_connection': None, 'blockmap': 'none', 'refine': None, 'seed': rnd.randrange(1 << 30)}
@@ -256,7 +256,7 @@ def file_case(rnd, idx, gi, variant):
         d['atmos_volume'] = rnd.choice([None, 1.e50])
         d['atmos_connection'] = rnd.choice([None, 1.e-9, 0.5])
         d['blockmap'] = rnd.choice(['none', 'rename', 'swap', 'rename+atm'])
-        if gi in (2, 4, 5, 6, 7) and rnd.random() < 0.6:
+        if gi in (2, 4, 5, 6, 7) and rnd.random() < 0.6 and (refine_big or gi not in (2, 4)):
             d['refine'] = {'every': rnd.choice([5, 9, 17, 40]), 'offset': rnd.randint(0, 4)}
     return d
 
@@ -537,10 +537,10 @@ def main():
     big, small = (2, 4), (1, 3, 5, 6, 7)
     for gi in range(1, 8):                       # shipped geometries unchanged
         cases.append(file_case(rnd, idx, gi, False)); idx += 1
-    nvar_small, nvar_big, nrect = (5, 2, 1500) if tier == "quick" else (60, 20, 25000)
+    nvar_small, nvar_big, nrect = (4, 1, 1200) if tier == "quick" else (60, 20, 25000)
     for gi in big:
         for _ in range(nvar_big):
-            cases.append(file_case(rnd, idx, gi, True)); idx += 1
+            cases.append(file_case(rnd, idx, gi, True, tier != 'quick')); idx += 1
     for gi in small:
         for _ in range(nvar_small):
             cases.append(file_case(rnd, idx, gi, True)); idx += 1
